@@ -97,6 +97,14 @@ pub fn validate_response(req: &Request, r: &Response) -> Result<(), String> {
     }
     let info = op_info(req.opcode);
     if r.status != status::OK {
+        if info.with_key && r.extras_len == 0 && r.key_len as usize == req.key.len() && r.key() == req.key.as_slice() {
+            // a get-key miss may echo the key (memcached does); the rest is the message text or nothing
+            let rest = r.value();
+            if rest.is_empty() || is_text(rest) {
+                return Ok(());
+            }
+            return Err("get-key miss echoes the key but the rest of the body is not a message text".into());
+        }
         if r.extras_len != 0 || r.key_len != 0 {
             return Err(format!("error response carries extras {} / key {}", r.extras_len, r.key_len));
         }
